@@ -286,14 +286,9 @@ def rule_c(repo, chk):
     d = repo.func(MANAGER, 'Manager._dispatcher')
     gd = d.cfg()
     ev = d.params[1]
-    loop = None
-    for n in gd.nodes:
-        if n.kind == 'for' and isinstance(n.ast.target, ast.Name) and any(call_name(c) == n.ast.target.id for c in calls_in(n.ast)):
-            loop = n
-    need(loop, 'C03.c: dispatcher handler loop not found')
-    hv = loop.ast.target.id
+    from .common import dispatcher_loop
+    loop, hv, inv, _helper = dispatcher_loop(repo, d)
     recs = [n for n in gd.nodes if n.kind == 'stmt' and ev in pat.stores_attr(n.ast, 'handler') and src(n.ast.value) == hv]
-    inv = [n for n in gd.nodes if n.kind in ('stmt', 'test') and any(call_name(c) == hv for c in pat.node_calls(n))]
     for n in inv:
         p = Q.reachable_without(gd, n, start=loop, avoid_node=lambda m: m in recs)
         chk.ob('c', d.ref, 'the handler about to run is recorded on the event before it is invoked', p is None and bool(recs),
